@@ -56,7 +56,9 @@ class _Helper(object):
             if isinstance(n, ast.Call) and ((isinstance(n.func, ast.Attribute) and n.func.attr == node.name) or
                                             (isinstance(n.func, ast.Name) and n.func.id == node.name)):
                 self.ok = False      # recursion
-            if isinstance(n, ast.Call) and isinstance(n.func, ast.Name) and n.func.id in ('locals', 'vars', 'super'):
+            if isinstance(n, ast.Call) and isinstance(n.func, ast.Name) and n.func.id in ('locals', 'vars'):
+                self.ok = False
+            if isinstance(n, ast.Call) and isinstance(n.func, ast.Name) and n.func.id == 'super' and cls is None:
                 self.ok = False
         # `return h(...)` sites can take any helper (its returns simply become the caller's); other sites need tail returns
         self.tail_ok = self._returns_in_tail(node.body)
@@ -153,6 +155,7 @@ def _tail(body, mk, at):
 class Inliner(object):
     def __init__(self, trees):
         self.cls_helpers = {}       # method name -> _Helper (unique among the classes of the package)
+        self.own_helpers = {}       # (module, class name) -> {method name -> _Helper}   (a method of the calling class itself wins)
         self.mod_helpers = {}       # module -> {function name -> _Helper}   (a bare name is looked up in its own module)
         self.cur = None
         dup = set()
@@ -176,14 +179,20 @@ class Inliner(object):
         name = f.name
         if not _is_private(name) or name in KNOWN_HELPERS:
             return
+        h = _Helper(f, cls, m)
+        self.own_helpers.setdefault((m, cls.name), {})[name] = h
         if name in self.cls_helpers:
             dup.add(name)
             return
-        self.cls_helpers[name] = _Helper(f, cls, m)
+        self.cls_helpers[name] = h
 
     def all_helpers(self):
-        for h in self.cls_helpers.values():
-            yield h
+        seen = set()
+        for d in self.own_helpers.values():
+            for h in d.values():
+                if id(h) not in seen:
+                    seen.add(id(h))
+                    yield h
         for d in self.mod_helpers.values():
             for h in d.values():
                 yield h
@@ -207,9 +216,10 @@ class Inliner(object):
         if name is None:
             return None
         table = self.cls_helpers if bound else self.mod_helpers.get(self.cur, {})
-        h = table.get(name)
+        own = self.own_helpers.get((self.cur, cls_stack[-1].name), {}) if (bound and cls_stack) else {}
+        h = own.get(name) or table.get(name)
         if h is None and name.startswith('_') and '__' in name[1:]:
-            h = table.get('__' + name.split('__', 1)[1])
+            h = own.get('__' + name.split('__', 1)[1]) or table.get('__' + name.split('__', 1)[1])
         if h is None or not h.ok:
             return None
         if bound and h.cls is None:
@@ -415,7 +425,7 @@ def inline_all(trees, skip=()):
             mangled = ('_%s%s' % (h.cls.name.lstrip('_'), name)) if (h.cls is not None and name.startswith('__')) else name
             refs = 0
             for n, t in trees.items():
-                if n in skip or (h.cls is None and n != h.module):
+                if n in skip or n != h.module and (h.cls is None or name not in inl.cls_helpers or inl.cls_helpers[name] is not h):
                     continue
                 for x in ast.walk(t):
                     if isinstance(x, ast.Attribute) and x.attr in (name, mangled):
